@@ -1,0 +1,18 @@
+//go:build verif
+// +build verif
+
+package ast
+
+// Hooks for the verification harness in /verif. Built only with -tags verif;
+// nothing here changes the behaviour of the package.
+
+// VerifHeaderBytes exposes getHeaderBytes.
+func VerifHeaderBytes(typ string, size int) ([]byte, bool) {
+	b, err := getHeaderBytes(typ, size)
+	return b, err == nil
+}
+
+// VerifDataByteLength exposes getDataByteLength.
+func VerifDataByteLength(typ string, size int) int {
+	return getDataByteLength(typ, size)
+}
